@@ -22,6 +22,8 @@ func implVerdict(m wamp.Message, err error, panicked string) string {
 		switch {
 		case e == "invalid message":
 			return "error invalid-message"
+		case e == "invalid message: not a list":
+			return "error not-a-list"
 		case e == "unsupported message format":
 			return "error unsupported-format"
 		case e == "unsupported message type":
@@ -305,7 +307,6 @@ func strictOK(ft reflect.Type, v any) bool {
 
 func (r *runner) sectionL2M(n int) {
 	var ps []pending
-	knownF1 := ""
 	for i := 0; i < n; i++ {
 		f := formats[i%3]
 		row := wampLayout[r.rng.Intn(len(wampLayout))]
@@ -367,24 +368,47 @@ func (r *runner) sectionL2M(n int) {
 			continue
 		}
 		if derr == nil && m2 != nil {
-			// accepted: is every item WAMP-compatible with its field?
+			// accepted: is every item WAMP-compatible with its field?  What is still accepted
+			// against the WAMP reading is one of the open findings; anything else is a regression.
 			rv2 := reflect.ValueOf(m2).Elem()
 			for j := 0; j < rv2.NumField() && j+1 < len(gl); j++ {
-				if !strictOK(rv2.Field(j).Type(), gl[j+1]) {
-					r.sum.Count("l2m.accepted-incompatible." + kindOf(gl[j+1]) + "-for-" + rv2.Field(j).Type().Name())
-					if ex := fmt.Sprintf("%s %s -> %s", f.name, render(g), renderMsg(m2)); gl[j+1] != nil && (knownF1 == "" || len(ex) < len(knownF1)) {
-						knownF1 = ex
-					}
-					break
+				ft, it := rv2.Field(j).Type(), gl[j+1]
+				if strictOK(ft, it) {
+					continue
 				}
+				known := ""
+				switch {
+				case it == nil:
+					known = "F1c" // a nil item leaves the field at its zero value
+				case ft.Kind() == reflect.Uint64 || ft.Kind() == reflect.Int:
+					switch it.(type) {
+					case float64, int64:
+						known = "F1b" // float or negative number for an id / int
+					}
+				case ft.Kind() == reflect.Slice:
+					if _, ok := it.([]byte); ok {
+						known = "F1d"
+					}
+				}
+				if known == "" {
+					r.disagree(in, verdict, "error", true, "l2m: accepted a "+kindOf(it)+" for a field of type "+ft.Name()+" (not a compatible field type)")
+				} else {
+					r.sum.Count("l2m.accepted-incompatible.C14-" + known + "." + kindOf(it) + "-for-" + ft.Name())
+				}
+				break
+			}
+			mandatory := 0
+			for j := 0; j < rv2.NumField(); j++ {
+				if !strings.Contains(rv2.Type().Field(j).Tag.Get("wamp"), "omitempty") {
+					mandatory++
+				}
+			}
+			if len(gl)-1 < mandatory {
+				r.sum.Count("l2m.accepted-incompatible.C14-F1c.short-list")
 			}
 		}
 		ps = append(ps, pending{line: "l2m " + f.name + " " + render(g), expect: verdict, input: in,
 			detail: "Lean fromList differs from Deserialize on a hostile list"})
-	}
-	if knownF1 != "" {
-		r.sum.KnownFindings = append(r.sum.KnownFindings,
-			"C14-F1: listToMsg accepts items that are not WAMP-compatible with the field (integer→URI becomes a one-rune string, float/negative→id, []byte→URI/List); e.g. "+knownF1)
 	}
 	r.flush("l2m", ps)
 }
@@ -489,46 +513,118 @@ func (r *runner) sectionSynthetic() {
 // ---- witnesses of the Lean counter-example theorems ---------------------------
 
 func (r *runner) sectionWitness() {
-	type w struct {
-		id, fmtName, hexBytes, what string
-		wantOK                      bool
-	}
-	ws := []w{
-		{"C14-F1", "json", hex.EncodeToString([]byte(`[32,1,{},65]`)), "C14_rejects_strict_fails: [32,1,{},65] is accepted as SUBSCRIBE with Topic \"A\"", true},
-		{"C14-F2", "msgpack", "8101a161", "C14_toplevel_map_accepted: the MessagePack MAP {1:\"a\"} (not a list) is accepted as HELLO realm \"a\"", true},
-		{"C14-F2", "cbor", "a1016161", "C14_toplevel_map_accepted: the CBOR MAP {1:\"a\"} (not a list) is accepted as HELLO realm \"a\"", true},
-		{"C14-F2", "json", hex.EncodeToString([]byte(`{1:"a"}`)), "the JSON text {1:\"a\"} (an object, and not even valid JSON) is accepted as HELLO realm \"a\"", true},
-	}
-	var ps []pending
-	for _, x := range ws {
-		var f format
+	fmtOf := func(name string) format {
 		for _, g := range formats {
-			if g.name == x.fmtName {
-				f = g
+			if g.name == name {
+				return g
 			}
 		}
+		panic("unknown format " + name)
+	}
+	var ps []pending
+	// (a) regression replays of FIXED findings: must be rejected now
+	type reg struct {
+		id, fmtName, hexBytes, what string
+		model                       bool // compare with the Lean model too
+	}
+	regs := []reg{
+		{"C14-F1", "json", hex.EncodeToString([]byte(`[32,1,{},65]`)), "an integer for a URI field ([32,1,{},65] was SUBSCRIBE to topic \"A\")", true},
+		{"C14-F1", "json", hex.EncodeToString([]byte(`[1,5,{}]`)), "an integer for a URI field ([1,5,{}])", true},
+		{"C14-F1", "msgpack", "9301c4016180", "a []byte for a URI field (msgpack [1, bin \"a\", {}])", true},
+		{"C14-F1", "cbor", "8304016180", "an integer for a string field (cbor [4, 1, \"a\"...])", false},
+		{"C14-F2", "msgpack", "8101a161", "a top-level MessagePack MAP {1:\"a\"}", false},
+		{"C14-F2", "cbor", "a1016161", "a top-level CBOR MAP {1:\"a\"}", false},
+		{"C14-F2", "json", hex.EncodeToString([]byte(`{1:"a"}`)), "the top-level JSON text {1:\"a\"}", false},
+		{"C14-F2", "json", hex.EncodeToString([]byte(`{1}`)), "the top-level JSON text {1}", false},
+		{"C14-F2", "msgpack", "81a16101", "a top-level MessagePack MAP {\"a\":1}", true},
+		{"C14-F2", "cbor", "a1616101", "a top-level CBOR MAP {\"a\":1}", true},
+		{"C14-F2", "json", hex.EncodeToString([]byte(`{"a":1}`)), "a top-level JSON object {\"a\":1}", true},
+		{"C14-F2", "json", hex.EncodeToString([]byte(`null`)), "a top-level JSON null", true},
+		{"C14-F2", "msgpack", "c0", "a top-level MessagePack nil", true},
+		{"C14-F2", "cbor", "f6", "a top-level CBOR null", true},
+		{"C14-F2", "json", hex.EncodeToString([]byte(`"x"`)), "a top-level JSON string", true},
+	}
+	for _, x := range regs {
+		f := fmtOf(x.fmtName)
 		b, _ := hex.DecodeString(x.hexBytes)
 		m, err, p := deserialize(f.s, b)
 		verdict := implVerdict(m, err, p)
 		r.sum.Evaluations++
-		r.sum.Count("witness." + x.id)
-		if p != "" {
-			r.disagree(x.hexBytes, verdict, "no panic", true, "witness: Deserialize panics")
+		r.sum.Count("witness.regression." + x.id)
+		in := map[string]any{"format": x.fmtName, "bytes": x.hexBytes}
+		switch {
+		case p != "":
+			r.disagree(in, verdict, "error", true, "regression "+x.id+": Deserialize panics on "+x.what)
+			continue
+		case err == nil:
+			r.disagree(in, verdict, "error", true, "regression "+x.id+": "+x.what+" is accepted as a message again")
 			continue
 		}
-		if (err == nil) == x.wantOK {
-			r.sum.KnownFindings = append(r.sum.KnownFindings, fmt.Sprintf("%s: %s (%s %s -> %s)", x.id, x.what, x.fmtName, x.hexBytes, verdict))
-		} else {
-			r.disagree(x.hexBytes, verdict, "accepted", false, "witness: the implementation does not reproduce the Lean witness "+x.id+" (model wrong or defect fixed)")
+		if x.model {
+			ps = append(ps, pending{line: "deser " + x.fmtName + " " + x.hexBytes, expect: verdict, input: in,
+				detail: "regression " + x.id + ": model and implementation differ on " + x.what})
 		}
-		line := "deser " + x.fmtName + " " + x.hexBytes
-		if x.fmtName == "json" && !jsonModelled {
-			line = "l2m json [i32,i1,{},i65]" // list-level model of the same witness
+	}
+	// BinaryData.UnmarshalJSON on the empty JSON string (fixed C14-F3): an error, not a panic
+	{
+		var bd serialize.BinaryData
+		var uerr error
+		p := protect(func() { uerr = bd.UnmarshalJSON([]byte(`""`)) })
+		r.sum.Evaluations++
+		r.sum.Count("witness.regression.C14-F3")
+		if p != "" {
+			r.disagree("BinaryData.UnmarshalJSON(`\"\"`)", "panic "+p, "error", true, "regression C14-F3: serialize.BinaryData.UnmarshalJSON panics on the empty JSON string")
+		} else if uerr == nil {
+			r.disagree("BinaryData.UnmarshalJSON(`\"\"`)", "nil error", "error", true, "regression C14-F3: serialize.BinaryData.UnmarshalJSON accepts a string without the NUL prefix")
 		}
-		if x.fmtName == "json" && x.id == "C14-F2" {
-			continue // top-level objects with non-string keys are outside the Lean JSON fragment
+		// and the documented convention still round-trips
+		var back serialize.BinaryData
+		enc, e1 := serialize.BinaryData{1, 2, 3}.MarshalJSON()
+		p = protect(func() { uerr = back.UnmarshalJSON(enc) })
+		if p != "" || e1 != nil || uerr != nil || render([]byte(back)) != "b010203" {
+			r.disagree(string(enc), fmt.Sprintf("%v %v %v %v", p, e1, uerr, back), "[1 2 3]", true, "BinaryData does not round-trip through its own JSON convention")
 		}
-		ps = append(ps, pending{line: line, expect: verdict, input: x.hexBytes, detail: "witness " + x.id + ": model and implementation differ"})
+	}
+	// (b) witnesses of findings that are still OPEN: reproduced -> one stable line per id
+	type open struct {
+		id, fmtName, hexBytes, line string
+	}
+	opens := []open{
+		{"C14-F1b", "json", hex.EncodeToString([]byte(`[33,1.5,2]`)), "C14-F1b: a float or a negative number is accepted for an id field (C14_rejects_strict_fails: [33,1.5,2] is SUBSCRIBED with request 1; [33,-1,2] with request 2^64-1)"},
+		{"C14-F1b", "json", hex.EncodeToString([]byte(`[33,-1,2]`)), ""},
+		{"C14-F1c", "json", hex.EncodeToString([]byte(`[1]`)), "C14-F1c: a list shorter than the message's mandatory fields (or with nil items) is accepted, the fields stay zero (C14_rejects_short_fails: [1] is HELLO with empty realm)"},
+		{"C14-F1c", "json", hex.EncodeToString([]byte(`[33,null,null]`)), ""},
+		{"C14-F1d", "msgpack", "9524010280c403010203", "C14-F1d: a []byte is accepted for a List field and becomes a list of uint8 (C14_bin_for_list_accepted: msgpack 95 24 01 02 80 c4 03 01 02 03 is EVENT with Arguments [1,2,3])"},
+	}
+	for _, x := range opens {
+		f := fmtOf(x.fmtName)
+		b, _ := hex.DecodeString(x.hexBytes)
+		m, err, p := deserialize(f.s, b)
+		verdict := implVerdict(m, err, p)
+		r.sum.Evaluations++
+		r.sum.Count("witness.open." + x.id)
+		in := map[string]any{"format": x.fmtName, "bytes": x.hexBytes}
+		switch {
+		case p != "":
+			r.disagree(in, verdict, "no panic", true, "witness "+x.id+": Deserialize panics")
+			continue
+		case err != nil:
+			r.disagree(in, verdict, "accepted", false, "witness: the implementation no longer reproduces "+x.id+" (defect fixed: update model, theorems and known_findings.json)")
+		case x.line != "":
+			r.sum.KnownFindings = append(r.sum.KnownFindings, x.line)
+		}
+		if x.fmtName == "json" && strings.Contains(string(b), ".") {
+			continue // JSON floats are outside the Lean JSON fragment; l2m below covers the list level
+		}
+		ps = append(ps, pending{line: "deser " + x.fmtName + " " + x.hexBytes, expect: verdict, input: in,
+			detail: "witness " + x.id + ": model and implementation differ"})
+	}
+	// the float witness at list level (what the codec hands to listToMsg)
+	{
+		js := fmtOf("json")
+		m, err, p := deserialize(js.s, []byte(`[33,1.5,2]`))
+		ps = append(ps, pending{line: "l2m json [i33,d3ff8000000000000,i2]", expect: implVerdict(m, err, p), input: "[33,1.5,2]",
+			detail: "witness C14-F1b: model and implementation differ"})
 	}
 	// C14-F4: a float payload in (-2^64, -2^63) does not survive JSON
 	{
@@ -537,28 +633,18 @@ func (r *runner) sectionWitness() {
 		b, serr := js.s.Serialize(m)
 		m2, derr, p := deserialize(js.s, b)
 		r.sum.Evaluations++
-		r.sum.Count("witness.C14-F4")
+		r.sum.Count("witness.open.C14-F4")
 		switch {
 		case p != "":
 			r.disagree(string(b), "panic "+p, "no panic", true, "witness: Deserialize panics")
 		case serr == nil && derr != nil:
-			r.sum.KnownFindings = append(r.sum.KnownFindings, fmt.Sprintf(
-				"C14-F4: JSON round trip fails for a float payload in (-2^64, -2^63): Hello{Realm:\"a\", Details:{\"x\": -1e19}} serialises to %s and Deserialize answers: %v", b, derr))
+			r.sum.KnownFindings = append(r.sum.KnownFindings,
+				"C14-F4: JSON round trip fails for a float payload in (-2^64, -2^63): Hello{Realm:\"a\", Details:{\"x\": -1e19}} is written as [1,\"a\",{\"x\":-10000000000000000000}], which Deserialize cannot parse")
 		case serr == nil && derr == nil && specEqual(m, m2, true):
 			r.disagree(string(b), renderMsg(m2), "error", false, "witness: the implementation no longer reproduces C14-F4 (defect fixed: remove the exemption in the roundtrip section)")
 		default:
 			r.disagree(string(b), fmt.Sprintf("%v %v", serr, derr), "error", true, "witness: C14-F4 behaves differently")
 		}
-	}
-	// BinaryData.UnmarshalJSON on the empty JSON string: s[0] without a length check
-	var bd serialize.BinaryData
-	var uerr error
-	p := protect(func() { uerr = bd.UnmarshalJSON([]byte(`""`)) })
-	r.sum.Evaluations++
-	if p != "" {
-		r.sum.KnownFindings = append(r.sum.KnownFindings, "C14-F3: serialize.BinaryData.UnmarshalJSON(`\"\"`) panics ("+p+"): s[0] on an empty string")
-	} else {
-		_ = uerr
 	}
 	r.flush("witness", ps)
 }
